@@ -4,7 +4,7 @@
 From Coq Require Import NArith ZArith List String Bool.
 From V Require Import Base.UString Base.Json Model.SchemaTypes Model.PyBase Model.Schema Model.Serialize Model.SchemaReparse.
 From V Require Import Gen.Tables Proofs.C04Strict Proofs.C04Witness.
-From V Require Import Proofs.C01KindsAll Proofs.C01Object Proofs.C01Roundtrip Proofs.C01LibInstance Proofs.C04Modes Proofs.C04Flag Spec.CustomFree Proofs.C04CustomFree.
+From V Require Import Proofs.C01KindsAll Proofs.C01Object Proofs.C01Roundtrip Proofs.C01LibInstance Proofs.C04Modes Proofs.C04Flag Spec.CustomFree Proofs.C04CustomFree Proofs.C01Parse Proofs.C04Parse.
 Import ListNotations.
 
 (* With customisation disallowed no property cleaner -- at any nesting site: lists, hash
@@ -126,6 +126,36 @@ Theorem unflagged_is_custom_free_partial :
     cf_obj w fuel kid o = true.
 Proof. exact C04CustomFree.run_unflagged_custom_free. Qed.
 Print Assumptions unflagged_is_custom_free_partial.
+
+(* flag_iff_strict_reparse at the level of stix2.parse (no version named), partial: for the parse entry points
+   `pids` (registry_ok, parse_class_ok; 86 classes of the generated tables), plain input with its id when the
+   type is a 2.1 observable type: the object an allow_custom=True parse returns has flag false exactly when the
+   allow_custom=False parse of its own encoding succeeds.  Both directions; every fuel. *)
+Theorem flag_iff_strict_reparse_parse_partial :
+  forall vr ev w pattern_ok selectors_ok, vr_year_pad vr = true -> vr_ref_flip_unreg vr = true ->
+  forall ids, closed_ok vr w ids = true -> registry_ok w = true ->
+  forall pids, forallb (fun k => mem_ustr k ids) pids = true ->
+    forallb (fun k => match find_class (wclasses w) k with Some c => parse_class_ok w c | None => false end) pids = true ->
+  forall fuel interop d ci S dfl hc,
+    plain_dict d = true -> mem_ustr ci pids = true ->
+    (amem id_key d = true \/ forall t, alookup type_key d = Some (JStr t) -> amem t (robservables (wreg21 w)) = false) ->
+    run vr ev w pattern_ok selectors_ok fuel (RParse true interop None d) = Ok (PObject ci S dfl hc) ->
+    (hc = false <->
+     exists o', run vr ev w pattern_ok selectors_ok fuel (RParse false interop None (omem (PObject ci S dfl hc))) = Ok o').
+Proof. exact C04Parse.flag_iff_strict_reparse_parse. Qed.
+Print Assumptions flag_iff_strict_reparse_parse_partial.
+
+(* strict_custom_free at the level of stix2.parse, partial: what an allow_custom=False parse returns for a covered
+   entry point is custom-free at every depth (Spec/CustomFree.v) *)
+Theorem strict_custom_free_parse_partial :
+  forall vr ev w pattern_ok selectors_ok ids, closed_ok vr w ids = true ->
+  forall pids, forallb (fun k => mem_ustr k ids) pids = true ->
+  forall f interop d ci S dfl hc,
+    plain_dict d = true -> mem_ustr ci pids = true ->
+    run vr ev w pattern_ok selectors_ok (Datatypes.S f) (RParse false interop None d) = Ok (PObject ci S dfl hc) ->
+    cf_obj w f ci (PObject ci S dfl hc) = true.
+Proof. exact C04Parse.strict_custom_free_parse. Qed.
+Print Assumptions strict_custom_free_parse_partial.
 
 (* the hypotheses are met by the repaired variant on the generated tables (class list recomputed each run) *)
 Theorem flag_theorem_applies_to_lib :
